@@ -1,5 +1,6 @@
 import ZipVerif.Tie.Visit
 import ZipVerif.Tie.StreamGlue
+import ZipVerif.Lemmas.VisitBounds
 /-
 `ZipStreamReader::visit` against `Model.streamVisitC` ITSELF (helper t6r4): the visitor parameter of `Tie/Visit.tie_visit`
 - which holds for every visitor keeping the handle invariant - instantiated with the MODEL'S CONSUMER (`Model.Consume`:
@@ -20,9 +21,10 @@ import ZipVerif.Tie.StreamGlue
 
 Hypotheses (explicit): `Hk` - the device fails with a kind other than `Interrupted`, or the run is failure-free (the
 header / central `read_exact`s retry `Interrupted`; the READ-mode vocabulary models every failure as hard; the drains
-retry on both sides); `KindFacts` (discharged in `Tie/VisitCKind.lean`: `tie_visit_streamVisitC_hard`); fuel above the largest `Take` (2^64 + 2) and above the model's two loop bounds; `BoundsAdequate`:
-the bounds `len / 30 + 1`, `len / 46 + 1` of the model's structural recursions are not what ends its loops on this run
-(every round consumes at least 30 resp. 46 bytes; not proved here).
+retry on both sides); `KindFacts` (discharged in `Tie/VisitCKind.lean`: `tie_visit_streamVisitC_hard`); fuel above the
+largest `Take` (2^64 + 2) and above the model's two loop bounds `len / 30 + 1`, `len / 46 + 1`.  That these bounds of
+the model's structural recursions are never what ends its loops is PROVED (`Lemmas/VisitBounds.lean`: every round that
+shows an entry consumes at least 30 bytes, every further central record at least 46, of a buffer the run never changes).
 -/
 
 set_option linter.unusedSimpArgs false
@@ -341,8 +343,7 @@ theorem Hk.step {fa : Option Nat} {d d' : Dev} (h : Hk fa d) (hk : d'.fkind = d.
   · exact Or.inr h
 
 /-- the kind of error a device fails with is a property of the device: the model's computations do not change it.
-(Proved from `Lemmas/FaultVisit` - `Uniform.kind` - in `Tie/VisitCKind.lean`: `kindFacts`; that lemma family cannot be
-imported next to the lemma files of C10, so the facts are a parameter here.) -/
+(Proved from `Lemmas/FaultVisit` - `Uniform.kind` - in `Tie/VisitCKind.lean`: `kindFacts`; a parameter here.) -/
 structure KindFacts (ext : Ext) (pat : List Consume) : Prop where
   entry : ∀ c fa d, (visitEntry ext c fa d).2.fkind = d.fkind
   entries : ∀ m i fa d, (visitEntries ext pat m i fa d).2.fkind = d.fkind
@@ -502,11 +503,20 @@ theorem vam_apply (ext : Ext) (pat : List Consume) (v : VSt) (m : Gen.ZipFileDat
 /-- what the visitor has been shown, from its final state -/
 def shown (r : Unit × VSt) : List (FileData × Bytes) × List FileData := (r.2.2.1, r.2.2.2)
 
-/-- the bounds of the model's two structural recursions (`len / 30 + 1` entries, `len / 46 + 1` records: every round
-consumes at least that many bytes) are not what ends its loops on this run -/
-def BoundsAdequate (ext : Ext) (pat : List Consume) (fa : Option Nat) (d : Dev) : Prop :=
-  (∀ l d1, visitEntries ext pat (d.buf.length / 30 + 1) 0 fa d = (.ok l, d1) → l.length < d.buf.length / 30 + 1) ∧
-  (∀ d2 l d3, Model.streamCentralLoop (d.buf.length / 46 + 1) fa d2 = (.ok l, d3) → l.length < d.buf.length / 46 + 1)
+/-- the bound `len / 30 + 1` of the model's entry loop is not what ends it: a successful run has shown fewer entries
+(each consumed at least 30 bytes of the buffer: `Lemmas/VisitBounds.visitEntries_len`) -/
+theorem entries_bound (ext : Ext) (pat : List Consume) (fa : Option Nat) (d d1 : Dev) (l : List (FileData × Bytes))
+    (h : visitEntries ext pat (d.buf.length / 30 + 1) 0 fa d = (.ok l, d1)) : l.length < d.buf.length / 30 + 1 := by
+  have := visitEntries_len ext pat _ _ h
+  omega
+
+/-- the bound `len / 46 + 1` of the model's central loop is not what ends it, on every device holding the same buffer
+(each further record consumed at least 46 bytes: `Lemmas/VisitBounds.streamCentralLoop_len`) -/
+theorem central_bound (fa : Option Nat) (d d2 d3 : Dev) (l : List FileData) (hb : d2.buf = d.buf)
+    (h : Model.streamCentralLoop (d.buf.length / 46 + 1) fa d2 = (.ok l, d3)) : l.length < d.buf.length / 46 + 1 := by
+  have := streamCentralLoop_len _ h
+  rw [hb] at this
+  omega
 
 /-- **the translated `ZipStreamReader::visit`, run with the model's consumer as its visitor, IS
 `Model.streamVisitC`** - the definition `Props/C10` and `Props/C11` are stated about: same outcome, same device, and
@@ -517,7 +527,7 @@ retry `Interrupted`, which the READ-mode vocabulary does not model), for every f
 model's loop bounds. -/
 theorem tie_visit_streamVisitC (ext : Ext) (gext : Visit.GExt) (pat : List Consume) (fuel : Nat) (hfuel : 2 ^ 64 + 2 ≤ fuel)
     (fa : Option Nat) (d : Dev) (hk : Hk fa d) (hf1 : d.buf.length / 30 + 1 ≤ fuel) (hf2 : d.buf.length / 46 + 1 ≤ fuel)
-    (hA : BoundsAdequate ext pat fa d) (hK : KindFacts ext pat) :
+    (hK : KindFacts ext pat) :
     (shown <$> Gen.ZipStreamReader.visit (consumeVis ext pat) gext fuel (0, [], [])) fa d =
       streamVisitC ext pat fa d := by
   rw [tie_visit (consumeVis ext pat) gext fuel (visOk_consume ext pat fuel hfuel)]
@@ -535,7 +545,8 @@ theorem tie_visit_streamVisitC (ext : Ext) (gext : Visit.GExt) (pat : List Consu
   | panic s => simp only [] at hL; rw [hL]
   | ok l =>
     simp only [] at hL hkind1
-    rw [hL (hA.1 l d1 hve)]
+    rw [hL (entries_bound ext pat fa d d1 l hve)]
+    have hb1 : d1.buf = d.buf := (visitEntries_readOnly ext pat _ _).ok hve
     simp only [Nat.zero_add, List.nil_append, Drain.M.bind_apply]
     have hk1 : Hk fa d1 := hk.step hkind1
     have hret1 : M.retried (Model.centralHeaderInner 0 0) fa d1 = Model.centralHeaderInner 0 0 fa d1 := by
@@ -576,7 +587,8 @@ theorem tie_visit_streamVisitC (ext : Ext) (gext : Visit.GExt) (pat : List Consu
         rw [hC]
       | ok l2 =>
         simp only [] at hC
-        have hC' := hC (hA.2 d2 l2 d3 hcl)
+        have hb2 : d2.buf = d.buf := ((centralHeaderInner_readOnly 0 0).ok hchi).trans hb1
+        have hC' := hC (central_bound fa d d2 d3 l2 hb2 hcl)
         simp only [List.nil_append, Drain.M.bind_apply]
         rw [hC']
         rfl
